@@ -426,10 +426,10 @@ def stage_blocking_cases(pid, tier, seed, d, binp, st, ctx):
     each call through a wrapper with the same call on the ActorRef."""
     T_US, SLACK = 300400, 1000000      # a timeout that is not a whole number of milliseconds; scheduling slack
     T_THAW = 2000300
-    base = ("SPECIFICATION Spec\nCONSTANTS\n  HelperRt = \"%s\"\n  KeepsTimeout = %s\n  T = 2\n  MaxNow = 4\n  Emit = %s\n"
+    base = ("SPECIFICATION Spec\nCONSTANTS\n  HelperRt = \"%s\"\n  KeepsTimeout = %s\n  OneDeadline = %s\n  T = 2\n  MaxNow = 4\n  Emit = %s\n"
             "INVARIANTS ByDeadline ReturnsInv NoPanic Delivery EmitCases\nPROPERTIES Returns\nCHECK_DEADLOCK FALSE\n")
-    def tlc(name, helper, keeps, emit):
-        open(os.path.join(d, "Blocking_%s.cfg" % name), "w").write(base % (helper, keeps, emit))
+    def tlc(name, helper, keeps, emit, one="TRUE"):
+        open(os.path.join(d, "Blocking_%s.cfg" % name), "w").write(base % (helper, keeps, one, emit))
         p = subprocess.run(JAVA[:2] + ["-Xmx2g"] + JAVA[4:] + ["-workers", "1", "-metadir", os.path.join(d, "meta_blk_" + name),
                             "-noGenerateSpecTE", "-config", "Blocking_%s.cfg" % name, "Blocking.tla"],
                            cwd=d, text=True, stdout=subprocess.PIPE, stderr=subprocess.STDOUT, timeout=600)
@@ -451,8 +451,9 @@ def stage_blocking_cases(pid, tier, seed, d, binp, st, ctx):
         model.setdefault(key(c), set()).add((c["res"], c["queued"]))
     if not model or any(len(v) != 1 for v in model.values()):
         raise ctx["ToolError"]("Blocking.tla: no cases, or a configuration with more than one outcome")
-    for name, helper, keeps, inv in (("ambient", "ambient", "TRUE", "ReturnsInv"), ("dropsT", "private", "FALSE", "")):
-        o = tlc(name, helper, keeps, "FALSE")
+    for name, helper, keeps, one in (("ambient", "ambient", "TRUE", "TRUE"), ("dropsT", "private", "FALSE", "TRUE"),
+                                     ("twoDeadlines", "private", "TRUE", "FALSE")):
+        o = tlc(name, helper, keeps, "FALSE", one)
         if "is violated" not in o:
             raise ctx["ToolError"]("Blocking.tla deviation %s was expected to be refuted by TLC but was not" % name)
     # the model itself must be transparent: a wrapper case and its direct twin have the same outcome
@@ -535,7 +536,7 @@ def stage_blocking_cases(pid, tier, seed, d, binp, st, ctx):
                % (ds, len(model), hist, len(obs), checked, pid, len(viol)))
     return dict(coverage={"module": "Blocking", "states": ds, "configurations": len(model), "model_outcomes": hist,
                           "cases_executed": len(obs), "cases_judged": checked, "timeout_us": T_US, "timeout_us_thaw_mode": T_THAW, "slack_us": SLACK,
-                          "deviations_refuted_by_tlc": ["HelperRt=ambient", "KeepsTimeout=FALSE"]},
+                          "deviations_refuted_by_tlc": ["HelperRt=ambient", "KeepsTimeout=FALSE", "OneDeadline=FALSE"]},
                 violations=vout, traces=checked, states=ds, transitions=g,
                 samples=[{"stage": "blocking_cases", "case": runnable[0]["cfg"], "model": runnable[0]["res"]}],
                 nontrivial_keys=["blk_" + "_".join(k) for k in model if next(iter(model[k]))[0] != "panic"
